@@ -157,9 +157,9 @@ func procProgramSource(rng *gen.Rng, i int) string {
 func C08(r *drv.Run) {
 	r.BuildWorker()
 	srcs, counts := c08Sources(r)
-	r.Rule = "sources: valid programs (hand corpus covering every production, repository examples, generated programs incl. process code) and, for each, every byte prefix and suffix, every one-token deletion/duplication/adjacent swap, every token prefix; random token soups; random bytes biased to lexer-significant characters; regex literals with arbitrary bodies, terminated and not. Each Compile runs in a killable worker under a lexer-read budget (hook H2), a 30 CPU-second and 3 GiB guard; outcome classified: program XOR error, printable non-empty error, no panic, no nil hole anywhere in the AST (reflective walk) or bytecode. Every distinct source text counts once (the valid base programs are the control group that must be accepted)."
+	r.Rule = "sources: valid programs (hand corpus covering every production, repository examples, generated programs incl. process code) and, for each, every byte prefix and suffix, every one-token deletion/duplication/adjacent swap, every token prefix; random token soups; random bytes biased to lexer-significant characters; regex literals with arbitrary bodies, terminated and not. Each Compile runs in a killable worker under a lexer-read budget (hook H2), a 30 CPU-second and 1.5 GiB guard; outcome classified: program XOR error, printable non-empty error, no panic, no nil hole anywhere in the AST (reflective walk) or bytecode. Every distinct source text counts once (the valid base programs are the control group that must be accepted)."
 	r.Assumptions = []string{
-		"bounded time/memory is decided as: lexer reads <= 64*(len+8)+4096 (hook count), <= 30 CPU-seconds and <= 3 GiB per Compile call",
+		"bounded time/memory is decided as: lexer reads <= 64*(len+8)+4096 (hook count), <= 30 CPU-seconds and <= 1.5 GiB per Compile call",
 		"a hole is a nil pointer or nil interface reachable from the returned AST, or nil bytecode",
 	}
 	for k, v := range counts {
